@@ -172,7 +172,7 @@ fn verif_replay() {
                     let (mut io, out) = script(input.clone(), chunk);
                     let res = match required {
                         None => SocksRequest::read_from(&mut io, NoAuth).await.map(|r| show_req(&r)),
-                        Some(rq) => SocksRequest::read_from(&mut io, PasswordAuth { required: rq }).await.map(|r| show_req(&r)),
+                        Some(rq) => SocksRequest::read_from(&mut io, PasswordAuth::new(rq)).await.map(|r| show_req(&r)),
                     };
                     use tokio::io::AsyncReadExt;
                     let mut rest = vec![];
